@@ -1,5 +1,6 @@
 import PicoProofs.EndToEnd
 import PicoProofs.Tie
+import PicoModel.Sample
 /-
 C12 — protoc-gen-pico emits correct codecs for every supported schema.
 
@@ -34,5 +35,10 @@ theorem C12_roundtrip_all_schemas (S : Schema) (hS : S.ok) (id : Nat) (v : Val)
 /-- the emitted Decode never crashes, for every schema whatsoever (supported or not) -/
 theorem C12_decode_total_all_schemas (S : Schema) (id : Nat) (data : Bytes) (m0 : Val) :
     ∃ d m, unmarshal S id data m0 = .ok (d, m) := unmarshal_total S id data m0
+
+/-- non-vacuity: the schema side conditions and the typing premises are met by the sample schema -/
+example : wtMsg S1 false 0 v1 = true := by decide +kernel
+example : S1.ok := ⟨by decide +kernel, SpecRt.zeroMsgOk_of_B S1 (by decide +kernel)⟩
+example : wtMsg S1 true 0 v1 = true := by decide +kernel
 
 end Pico.Props
